@@ -68,9 +68,14 @@ def install(anchors):
     mon.register_callback(TOOL_ID, mon.events.PY_START, _on_start)
     for modname, qual in anchors:
         name = '%s:%s' % (modname, qual)
-        try:
-            code = _resolve(modname, qual)
-        except Exception as e:  # noqa
+        code = None
+        for alt in qual.split('|'):          # "a.__wrapped__|A.__exit__": whichever form the implementation has
+            try:
+                code = _resolve(modname, alt)
+                break
+            except Exception as e:  # noqa
+                continue
+        if code is None:
             missing.append(name)
             continue
         _counts[code] = 0
